@@ -314,10 +314,22 @@ def scene_calls(c):
     c.funcs.append("static %s %s_callee(%s) {\n\t%s\n\t%s\n}" % (rt, f, params, "\n\t".join(body), ret))
     args = ", ".join(small(c.draw, t) for t in ptypes)
     caller = []
-    if d(st.booleans()):
+    how = d(st.integers(0, 5))
+    if how <= 1:
         caller.append("%s (*fp)(%s) = %s_callee;" % (rt, ", ".join(ptypes), f))
         callee = d(st.sampled_from(["fp", "(*fp)", "(**fp)"]))
         c.labels.add("funcptr")
+    elif how == 2:
+        # the callee expression itself contains a call with arguments of several classes
+        c.funcs.append("static %s (*%s_sel(int a, long b, double x))(%s) { chk_i64(a); chk_i64(b); chk_f64(x); return a ? %s_callee : 0; }"
+                       % (rt, f, ", ".join(ptypes), f))
+        callee = "%s_sel(%d, anchor[%d], %s)" % (f, d(st.integers(1, 9)), d(st.integers(0, 7)), d(st.sampled_from(["1.5", "(double)anchor[2]", "-0.25"])))
+        c.labels.add("callee-expression-with-call")
+    elif how == 3:
+        c.funcs.append("static int %s_idx(int a, void *p) { chk_i64(a); return a + (p == 0); }" % f)
+        caller.append("%s (*tab[3])(%s) = { 0, %s_callee, 0 };" % (rt, ", ".join(ptypes), f))
+        callee = "tab[%s_idx(1, anchor)]" % f
+        c.labels.add("callee-expression-with-call")
     else:
         callee = "%s_callee" % f
     if rt == "void":
